@@ -1284,7 +1284,7 @@ def run_indices(binary, args, n, timeout=600):
     return lines, crashes
 
 
-def run_batch(c, cases, tag="b", conc=True):
+def run_batch(c, cases, tag="b", conc=True, alias=False):
     text = "".join(sx_case(cs) + "\n" for cs in cases)
     model = c.run_model("copier", text)
     model_nz = c.run_model("copier-nozs", text)      # repaired variant: no zero-skip (known finding C20:copy:zero-skip)
@@ -1298,7 +1298,12 @@ def run_batch(c, cases, tag="b", conc=True):
         cl, crashes_c = run_indices(binary, ["conc"], len(cases))
     else:
         cl, crashes_c = [None] * len(cases), {}
-    return dict(model=model, model_nz=model_nz, impl=impl, conc=cl, crashes=crashes_c, crashes_seq=crashes_s, binary=binary)
+    mem = al = None
+    if alias:
+        mem = c.run_model("copier-mem", text)          # memory-level model: share / fresh per reference, erased destination
+        al, _ = run_indices(binary, ["alias"], len(cases))
+    return dict(model=model, model_nz=model_nz, impl=impl, conc=cl, crashes=crashes_c, crashes_seq=crashes_s, binary=binary,
+                mem=mem, alias=al)
 
 
 # ------------------------------------------------------------------ classification of a disagreement
@@ -1616,6 +1621,92 @@ def process_batch(c, cases, res, stats, budget):
     return agree
 
 
+
+# ------------------------------------------------------------------ aliasing observables (memory-level model, C20_mem)
+def ty_has_ref(t):
+    k = t[0]
+    if k in ("p", "sl", "m"):
+        return True
+    if k == "s":
+        return any(ty_has_ref(ft) for _, _, ft in t[2])
+    return False
+
+
+def elem_has_ptr(t, inside=False):
+    k = t[0]
+    if k == "p":
+        return inside or elem_has_ptr(t[1], inside)
+    if k == "sl":
+        return elem_has_ptr(t[1], True)
+    if k == "m":
+        return elem_has_ptr(t[1], True) or elem_has_ptr(t[2], True)
+    if k == "s":
+        return any(elem_has_ptr(ft, inside) for _, _, ft in t[2])
+    return False
+
+
+def conv_has_ref(opts):
+    for o in opts:
+        if o[0] == "cv" and o[2] is not None:
+            S, D, fn = o[2]
+            ts = [S, D] + ([fn[1]] if fn[0] == "dyn" else [fn[2]] if fn[0] == "nilif" else [])
+            if any(t != FOREIGN and ty_has_ref(t) for t in ts):
+                return True
+    return False
+
+
+def alias_pass(c, cases, res, stats, budget):
+    """compare, call by call, the harness' aliasing observables (status, source unchanged cell by cell incl. the cells
+    between len and cap, which references of the destination are the source's) with the extracted memory-level model
+    (CopierMemModel: mem_copy_to / mem_copy on a store built from the case), and the erased destination of the
+    memory-level model with the tree-level model.  Out of the memory model's domain (skipped, counted): calls with a
+    converter over reference types; zero-skip calls (either behaviour is accepted there); pure calls."""
+    for i, cs in enumerate(cases):
+        m, z, mm, al = res["model"][i], res["model_nz"][i], res["mem"][i], res["alias"][i]
+        if not m or m == "badcase" or not mm or mm == "badcase" or not al or al in ("CRASH", "NOTRUN", "nocase"):
+            if al in ("CRASH", "NOTRUN", "nocase") or mm == "badcase":
+                stats["alias_not_run"] = stats.get("alias_not_run", 0) + 1
+            continue
+        mp, zp, mmp, ap = m.split(" | "), z.split(" | "), mm.split(" | "), al.split(" | ")
+        if not (len(mp) == len(zp) == len(mmp) == len(ap)) or mp[0] != "ctor=ok":
+            continue
+        elems = elem_has_ptr(cs["src"]) or elem_has_ptr(cs["dst"])
+        for j, k in enumerate(cs["calls"]):
+            if k[0] == "pure":
+                continue
+            a, x, t = ap[j + 1], mmp[j + 1], mp[j + 1]
+            sig = what = None
+            if "!srcmod" in a:
+                sig, what = "C20:copy:srcmod", "the source is modified by the call (deep snapshot incl. the cells between len and cap): `%s`" % a
+            elif conv_has_ref(cs["opts"]) or conv_has_ref(k[-1]):
+                stats["alias_skipped_ref_converter"] = stats.get("alias_skipped_ref_converter", 0) + 1
+                continue
+            elif mp[j + 1] != zp[j + 1]:
+                stats["alias_skipped_zero_skip"] = stats.get("alias_skipped_zero_skip", 0) + 1
+                continue
+            else:
+                stats["alias_calls_compared"] = stats.get("alias_calls_compared", 0) + 1
+                if a.startswith("panic") or x.startswith("panic"):
+                    if a.split()[0] != x.split()[0]:
+                        sig, what = "C20:copy:alias", "memory-level model `%s`, implementation `%s`" % (x, a)
+                else:
+                    xs = x.split(" ", 2)
+                    if a != xs[0] + " " + xs[1]:
+                        sig, what = "C20:copy:alias", ("which references of the destination are shared with the source: implementation `%s`, "
+                                                        "memory-level model `%s` (N nil, E no cells, S the source's, F not the source's)" % (a, xs[0] + " " + xs[1]))
+                    elif not elems and xs[0] + " " + xs[2] != t:
+                        sig, what = "C20:model:erase", "memory-level model erased `%s`, tree-level model `%s`" % (xs[0] + " " + xs[2], t)
+                    if "S" in xs[1]:
+                        stats["alias_calls_with_sharing"] = stats.get("alias_calls_with_sharing", 0) + 1
+            if sig and sig not in budget["seen"] and len(budget["seen"]) < 6:
+                budget["seen"].add(sig)
+                one = dict(cs, calls=(k,))
+                c.report(sig, what, {"kind": "program", "case": sx_case(one), "go": go_snippet(one), "implementation": a,
+                                     "memory_model": x, "tree_model": t, "from_case": sx_case(cs),
+                                     "how": HOW + "; aliasing: `h c20 alias`, model: ocaml/modelrun copier-mem"},
+                         found_input=(sig != "C20:model:erase"))
+
+
 def crosscheck(c, cases, model, r):
     idx = [i for i in range(len(cases)) if model[i] != "badcase" and len(sx_case(cases[i])) < 2500]
     idx = sorted(r.sample(idx, min(60, len(idx))))
@@ -1647,12 +1738,13 @@ def main(tier):
         if b > 0:
             cases = cases[len(corpus()):]
         try:
-            res = run_batch(c, cases, tag="b%d" % b)
+            res = run_batch(c, cases, tag="b%d" % b, alias=True)
         except BuildFailed as e:
             c.report("C20:build", "the generated case file / harness does not build against the repository",
                      {"kind": "build", "log": str(e)[-3000:]}, found_input=False)
             break
         agree += process_batch(c, cases, res, stats, budget)
+        alias_pass(c, cases, res, stats, budget)
         for i, cs in enumerate(cases):
             m = res["model"][i]
             ctor, calls = split_line(m)
@@ -1689,6 +1781,10 @@ def main(tier):
                      "chan/array/func/interface values are opaque; converters are pure functions of a five-function language",
                      "package reflect (TypeOf, Kind, Field, Set, CanSet, IsZero, Interface, type identity) behaves as modelled (cross-checked by the differential run)",
                      "the concurrent pass is a stress test (8 goroutines x 3 rounds per call), not an exhaustive interleaving search",
+                     "memory level (props/C20_mem.v): every Copy / CopyTo call is also run in `h c20 alias` (status, source unchanged cell by cell incl. "
+                     "the cells between len and cap, which pointer / slice / map references of the destination are the source's) and compared with "
+                     "the extracted CopierMemModel on a store built from the case (modelrun copier-mem); its erased destination is compared with the "
+                     "tree-level model; skipped and counted in coverage.search: calls with a converter over reference types, zero-skip calls, pure calls",
                      "known finding C20:copy:zero-skip: for calls whose result depends on the zero-skip (model as-is != model variant "
                      "`copier-nozs`, at any nesting depth) either answer is accepted call by call; while the implementation keeps the old "
                      "value the finding is reported once (KNOWN-FINDING); every other difference is a violation"],
